@@ -576,6 +576,12 @@ static void *thread_main(void *arg)
 	return NULL;
 }
 
+static NS void lfq_dump(int q)
+{
+	char b[300]; size_t o = 0; b[0] = 0;
+	for (struct cds_lfq_node_rcu *n = lq[q].head; n && o + 40 < sizeof b; n = n->next) o += snprintf(b + o, sizeof b - o, "%s%p ", n->dummy ? "D" : "U", (void *)n);
+	ds_note("lfq %d at quiescence: head chain = %s tail=%p", q, b, (void *)lq[q].tail);
+}
 static int tids[MAXTH];
 static void scenario(void)
 {
@@ -615,6 +621,7 @@ static void scenario(void)
 	/* quiescence: drain everything (part of the checked history) */
 	for (int q = 0; q < MAXQ; q++) {
 		if (kind == K_LFQ) {
+			lfq_dump(q);
 			int h = h_begin(L_DESTROY, q, 0);
 			int rc = cds_lfq_destroy_rcu(&lq[q]);
 			if (rc != 0 && rc != -EPERM) ds_fail("cds_lfq_destroy_rcu returned undocumented value %d", rc);
